@@ -70,7 +70,8 @@ package crl
 //@   ensures checkerOK(c)
 
 //@ func CRLRevocationChecker.updateCRLs
-//@   props C15 C13 C07
+//@   props C15 C13 C07 C08
+//@   ensures[C08,C13] whole_refreshes_are_serialised: called(Repository.UpdateCRLs#any) ==> after(Repository.UpdateCRLs#any, wheld(&crlUpdateMutex))
 //@   requires checkerOK(c) && norwlocks() && unheld(&crlUpdateMutex)
 //@   noglobals
 //@   assigns L.held, crlrepository.Entry.CRLStore, crlrepository.Entry.Loaded, crlrepository.Entry.LastUpdateSignatureVerifyFailed, crlrepository.Entry.LastUpdateSignature, crlrepository.Entry.Chains, H.crlrepository.Repository.crlRepository, M.map[string]*crlrepository.Entry, crlstore.MapStore.Map, M.map[string][]uint8, crlstore.LevelDbStore.Db, H.crlloader.MultiSchemesCRLLoader, H.crlloader.URLLoader, H.crlloader.FileLoader, X.ldbhas, X.fs, X.net, X.retry, X.stream, X.spos, X.hacc, X.hkind, E.uint8, E.any, E.string, fresh:E.*core.CertificateChainEntry, fresh:E.core.CertificateChain, fresh:E.core.CertificateChainEntry, G.crl.lastCrlUpdateFinishTime
